@@ -83,17 +83,16 @@ impl<P: Payload> World<P> {
             }
             let mut pred = Vec::new();
             {
+                // x, its earlier siblings (nearest first), then the parent, the parent's earlier siblings, …
+                // (one position lookup per level: sibling lists may hold tens of thousands of nodes)
                 let mut c = x;
                 loop {
-                    pred.push(c);
                     let l = m.siblings(c);
                     let j = l.iter().position(|&y| y == c).unwrap();
-                    if j > 0 {
-                        c = l[j - 1];
-                    } else if let Some(p) = m.n[c].parent {
-                        c = p;
-                    } else {
-                        break;
+                    pred.extend(l[..=j].iter().rev().copied());
+                    match m.n[l[0]].parent {
+                        Some(p) => c = p,
+                        None => break,
                     }
                 }
             }
